@@ -122,11 +122,14 @@ theorem chg_issueNested (m : Mach) (r : MutReq) : HChg F m (issueNested m r).1 :
     · have := chg_queueMutation (F := F) m r
       split <;> rename_i h <;> rw [h] at this <;> exact this
 
+theorem chg_issueLogged (m : Mach) (r : MutReq) : HChg F m (issueLogged m r) :=
+  (chg_issueNested m r).trans (chg_emit _ _)
+
 theorem chg_foldl_issue (l : List MutReq) : ∀ m : Mach,
-    HChg F m (l.foldl (fun mm r => (issueNested mm r).1) m) := by
+    HChg F m (l.foldl (fun mm r => issueLogged mm r) m) := by
   induction l with
   | nil => intro m; exact HChg.refl m
-  | cons r rs ih => intro m; exact (chg_issueNested m r).trans (ih _)
+  | cons r rs ih => intro m; exact (chg_issueLogged m r).trans (ih _)
 
 /-- the oracle can only fault when `F` holds. -/
 def OrcF (F : Prop) (orc : Oracle) : Prop :=
@@ -157,7 +160,8 @@ theorem recoverToErr_tx (m : Mach) (t : Tx) :
     (recoverToErr m t).2.latestIsFinal = t.latestIsFinal ∧
     (recoverToErr m t).2.mu = t.mu ∧ (recoverToErr m t).2.before = t.before ∧
     (recoverToErr m t).2.enters = t.enters ∧ (recoverToErr m t).2.exits = t.exits ∧
-    (recoverToErr m t).2.timeBefore = t.timeBefore := by
+    (recoverToErr m t).2.timeBefore = t.timeBefore ∧
+    (recoverToErr m t).2.timeAfter = t.timeAfter := by
   unfold recoverToErr
   split <;> simp
 
@@ -169,11 +173,13 @@ structure SameTx (t t' : Tx) : Prop where
   enters : t'.enters = t.enters
   exits : t'.exits = t.exits
   timeBefore : t'.timeBefore = t.timeBefore
+  timeAfter : t'.timeAfter = t.timeAfter
 
-theorem SameTx.refl (t : Tx) : SameTx t t := ⟨rfl, rfl, rfl, rfl, rfl, rfl⟩
+theorem SameTx.refl (t : Tx) : SameTx t t := ⟨rfl, rfl, rfl, rfl, rfl, rfl, rfl⟩
 theorem SameTx.trans {a b c : Tx} (h1 : SameTx a b) (h2 : SameTx b c) : SameTx a c :=
   ⟨h2.target.trans h1.target, h2.mu.trans h1.mu, h2.before.trans h1.before,
-   h2.enters.trans h1.enters, h2.exits.trans h1.exits, h2.timeBefore.trans h1.timeBefore⟩
+   h2.enters.trans h1.enters, h2.exits.trans h1.exits, h2.timeBefore.trans h1.timeBefore,
+   h2.timeAfter.trans h1.timeAfter⟩
 
 structure SameLatest (t t' : Tx) : Prop where
   to : t'.latestTo = t.latestTo
@@ -223,13 +229,13 @@ theorem processHandlers_spec (orc : Oracle) (hF : OrcF F orc) (name : HName) :
           · rename_i hnf
             refine ⟨HChg.refl m, SameTx.refl t, ⟨rfl, rfl, rfl⟩, ?_⟩
             intro hfin; exact absurd hfin hnf
-        · have g1 : HChg (F ∧ t.latestIsFinal = true) m (beh.muts.foldl (fun mm r => (issueNested mm r).1)
+        · have g1 : HChg (F ∧ t.latestIsFinal = true) m (beh.muts.foldl (fun mm r => issueLogged mm r)
               ((bumpCount m (b, name)).emit (.h b name m.active))) :=
             ((chg_bump m _).trans (chg_emit _ _)).trans (chg_foldl_issue _ _)
           split
           · rename_i okv hact
             split
-            · obtain ⟨h1, h2, h3, h4⟩ := ih (b + 1) (beh.muts.foldl (fun mm r => (issueNested mm r).1)
+            · obtain ⟨h1, h2, h3, h4⟩ := ih (b + 1) (beh.muts.foldl (fun mm r => issueLogged mm r)
                 ((bumpCount m (b, name)).emit (.h b name m.active))) t pk hok
               exact ⟨g1.trans h1, h2, h3, h4⟩
             · rename_i hcond
@@ -242,24 +248,24 @@ theorem processHandlers_spec (orc : Oracle) (hF : OrcF F orc) (name : HName) :
           · rename_i hact
             have f : F := hF b name _ beh horc (Or.inl hact)
             have hr : HChg (F ∧ t.latestIsFinal = true)
-                (beh.muts.foldl (fun mm r => (issueNested mm r).1)
+                (beh.muts.foldl (fun mm r => issueLogged mm r)
                   ((bumpCount m (b, name)).emit (.h b name m.active)))
-                (recoverToErr (beh.muts.foldl (fun mm r => (issueNested mm r).1)
+                (recoverToErr (beh.muts.foldl (fun mm r => issueLogged mm r)
                   ((bumpCount m (b, name)).emit (.h b name m.active))) t).1 := by
               by_cases hfin : t.latestIsFinal = true
               · exact recoverToErr_chg _ t ⟨f, hfin⟩ hok
               · exact (recoverToErr_quiet _ t (by simpa using hfin)).weaken (fun x => x.elim)
-            obtain ⟨e1, e2, e3, e4, e5, e6, e7, e8, e9⟩ := recoverToErr_tx
-              (beh.muts.foldl (fun mm r => (issueNested mm r).1)
+            obtain ⟨e1, e2, e3, e4, e5, e6, e7, e8, e9, e10⟩ := recoverToErr_tx
+              (beh.muts.foldl (fun mm r => issueLogged mm r)
                 ((bumpCount m (b, name)).emit (.h b name m.active))) t
-            have st : SameTx t (recoverToErr (beh.muts.foldl (fun mm r => (issueNested mm r).1)
-              ((bumpCount m (b, name)).emit (.h b name m.active))) t).2 := ⟨e1, e5, e6, e7, e8, e9⟩
-            have sl : SameLatest t (recoverToErr (beh.muts.foldl (fun mm r => (issueNested mm r).1)
+            have st : SameTx t (recoverToErr (beh.muts.foldl (fun mm r => issueLogged mm r)
+              ((bumpCount m (b, name)).emit (.h b name m.active))) t).2 := ⟨e1, e5, e6, e7, e8, e9, e10⟩
+            have sl : SameLatest t (recoverToErr (beh.muts.foldl (fun mm r => issueLogged mm r)
               ((bumpCount m (b, name)).emit (.h b name m.active))) t).2 := ⟨e2, e3, e4⟩
             split
-            · have hok' : (recoverToErr (beh.muts.foldl (fun mm r => (issueNested mm r).1)
+            · have hok' : (recoverToErr (beh.muts.foldl (fun mm r => issueLogged mm r)
                   ((bumpCount m (b, name)).emit (.h b name m.active))) t).2.latestIsFinal = true →
-                  FinalOk (recoverToErr (beh.muts.foldl (fun mm r => (issueNested mm r).1)
+                  FinalOk (recoverToErr (beh.muts.foldl (fun mm r => issueLogged mm r)
                   ((bumpCount m (b, name)).emit (.h b name m.active))) t).2 := by
                 intro hf
                 rw [e4] at hf
@@ -286,7 +292,7 @@ theorem handle_proj (orc : Oracle) (hF : OrcF F orc) (m : Mach) (t : Tx) (name :
   obtain ⟨g, st, sl, hf⟩ := processHandlers_spec orc hF name m.nbind 0 m
     { t with latestTo := to, latestIsEnter := isEnter, latestIsFinal := isFinal } false
     (by intro hf; exact h hf)
-  refine ⟨g, ⟨st.target, st.mu, st.before, st.enters, st.exits, st.timeBefore⟩,
+  refine ⟨g, ⟨st.target, st.mu, st.before, st.enters, st.exits, st.timeBefore, st.timeAfter⟩,
     sl.to, sl.isEnter, sl.isFinal, ?_⟩
   intro hn hfalse
   have : (processHandlers orc name m.nbind 0 m
@@ -521,10 +527,11 @@ theorem emitFinals_spec (orc : Oracle) (hF : OrcF F orc) (enters : S) : ∀ (l :
     HChg F m (emitFinals orc enters l m t).1 ∧
     ((emitFinals orc enters l m t).2.2 = false → F ∧ FinalOk (emitFinals orc enters l m t).2.1) ∧
     (emitFinals orc enters l m t).2.1.mu = t.mu ∧
-    (emitFinals orc enters l m t).2.1.timeBefore = t.timeBefore := by
+    (emitFinals orc enters l m t).2.1.timeBefore = t.timeBefore ∧
+    (emitFinals orc enters l m t).2.1.timeAfter = t.timeAfter := by
   intro l
   induction l with
-  | nil => intro m t; exact ⟨HChg.refl m, by simp [emitFinals], rfl, rfl⟩
+  | nil => intro m t; exact ⟨HChg.refl m, by simp [emitFinals], rfl, rfl, rfl⟩
   | cons s rest ih =>
     intro m t
     simp only [emitFinals]
@@ -532,19 +539,19 @@ theorem emitFinals_spec (orc : Oracle) (hF : OrcF F orc) (enters : S) : ∀ (l :
     · obtain ⟨g, st, _, h2, _, hf⟩ := handle_proj orc hF m t (.state s) (.st s) true true (by simp)
       have g' : HChg F m _ := g.weaken (fun h => h.1)
       split
-      · obtain ⟨k2, f2, e1, e2⟩ := ih (handle orc m t (.state s) (.st s) true true).1
+      · obtain ⟨k2, f2, e1, e2, e3⟩ := ih (handle orc m t (.state s) (.st s) true true).1
           (handle orc m t (.state s) (.st s) true true).2.1
-        exact ⟨g'.trans k2, f2, e1.trans st.mu, e2.trans st.timeBefore⟩
+        exact ⟨g'.trans k2, f2, e1.trans st.mu, e2.trans st.timeBefore, e3.trans st.timeAfter⟩
       · rename_i hfalse
-        exact ⟨g', fun _ => ⟨hf rfl (by simpa using hfalse), Or.inl h2⟩, st.mu, st.timeBefore⟩
+        exact ⟨g', fun _ => ⟨hf rfl (by simpa using hfalse), Or.inl h2⟩, st.mu, st.timeBefore, st.timeAfter⟩
     · obtain ⟨g, st, h1, _, _, hf⟩ := handle_proj orc hF m t (.end_ s) .none true false (by simp)
       have g' : HChg F m _ := g.weaken (fun h => h.1)
       split
-      · obtain ⟨k2, f2, e1, e2⟩ := ih (handle orc m t (.end_ s) .none true false).1
+      · obtain ⟨k2, f2, e1, e2, e3⟩ := ih (handle orc m t (.end_ s) .none true false).1
           (handle orc m t (.end_ s) .none true false).2.1
-        exact ⟨g'.trans k2, f2, e1.trans st.mu, e2.trans st.timeBefore⟩
+        exact ⟨g'.trans k2, f2, e1.trans st.mu, e2.trans st.timeBefore, e3.trans st.timeAfter⟩
       · rename_i hfalse
-        exact ⟨g', fun _ => ⟨hf rfl (by simpa using hfalse), Or.inr h1⟩, st.mu, st.timeBefore⟩
+        exact ⟨g', fun _ => ⟨hf rfl (by simpa using hfalse), Or.inr h1⟩, st.mu, st.timeBefore, st.timeAfter⟩
 
 theorem quiet_finish (m : Mach) (t : Tx) (r : Bool) : Quiet m (finish m t r).1 := by
   simp only [finish]
@@ -590,7 +597,7 @@ theorem chg_applyPhase (orc : Oracle) (hF : OrcF F orc) (m1 : Mach) (t2 : Tx)
   have g3 := g2.trans (chg_emit (F := F) (applyActive m1 t2.mu.called t2.target)
     (.tFinals (applyActive m1 t2.mu.called t2.target).clock (applyActive m1 t2.mu.called t2.target).active)).toChg
   split
-  · obtain ⟨k, fo, _, _⟩ := emitFinals_spec orc hF
+  · obtain ⟨k, fo, _, _, _⟩ := emitFinals_spec orc hF
       ({ t2 with timeAfter := (applyActive m1 t2.mu.called t2.target).clock } : Tx).enters
       (({ t2 with timeAfter := (applyActive m1 t2.mu.called t2.target).clock } : Tx).exits ++
         ({ t2 with timeAfter := (applyActive m1 t2.mu.called t2.target).clock } : Tx).enters)
